@@ -318,6 +318,9 @@ func (p *provider) RoundTrip(r *http.Request) (*http.Response, error) {
 		case "invalid_client":
 			rec.WriteHeader(401)
 			json.NewEncoder(rec).Encode(M{"error": "invalid_client"})
+		case "forbidden":
+			rec.WriteHeader(403)
+			json.NewEncoder(rec).Encode(M{"error": "access_denied", "error_description": ans.desc})
 		case "500":
 			rec.WriteHeader(500)
 			rec.WriteString("internal error")
